@@ -21,8 +21,11 @@
    Outside the model (the program throws [XUnsupported] before performing any effect for the entry):
    remote targets/roots/files, i.e. any entry containing ':' or '@' or "github.com" (everything
    git.NewRepoSpecFromURL or loader.IsRemoteFile could accept contains one of them).
-   Not represented in [kust] (generators never emit them): helmCharts, helmGlobals,
-   helmChartInflationGenerator (copyChartHome / copyDir / Walk). *)
+   Helm: helmCharts / helmGlobals / helmChartInflationGenerator and the HelmChartInflationGenerator
+   plugin are modelled with LOCAL chart homes (copyChartHomeEntry / copyChartHome / copyDir).
+   FileSystem.Walk is one effect returning the pre-order listing of the start node at that moment
+   (the real walk reads directories lazily: identical unless the copy destination lies inside the
+   directory being walked — newDir inside a chart home — which the harness does not send). *)
 From KV Require Export Fs.LocPath.
 From KV Require Export Gen.LocalizeTables.
 
@@ -43,6 +46,9 @@ Record kust := mkKust {
   k_resources : list string;
   k_cmgens : list genargs;
   k_secgens : list genargs;
+  k_helminfl : list (string * string);            (* HelmChartInflationGenerator[i]: (Values, ChartHome) *)
+  k_helmcharts : list (string * list string);     (* HelmCharts[i]: (ValuesFile, AdditionalValuesFiles) *)
+  k_helmglobals : option string;                  (* HelmGlobals.ChartHome when HelmGlobals is set *)
   k_patches : list string;      (* Patches[i].Path *)
   k_patches6902 : list string;  (* PatchesJson6902[i].Path *)
   k_psm : list string;          (* PatchesStrategicMerge entries (inline or file) *)
@@ -53,7 +59,9 @@ Record kust := mkKust {
 }.
 
 (* how a path inside a built-in plugin is localized (builtinplugins.go) *)
-Inductive prefkind := PFile | PFileSource | PK8s.
+Inductive prefkind := PFile | PFileSource | PK8s
+  | PHome            (* chartHome of a HelmChartInflationGenerator plugin: copyChartHomeEntry *)
+  | PHomeDefault.    (* that plugin without a chartHome key: copyChartHomeEntry(""), nothing rewritten *)
 
 Inductive content :=
 | CRaw (id : N)                                  (* bytes of source file #id *)
@@ -151,6 +159,34 @@ Definition fs_remove_all (s : fs) (p : string) : option fs :=
   | FNode q _ => Some (fs_remove q s)
   end.
 
+(* fsNode.WalkMe: pre-order, children in sort.Strings order.  Children of [q] are the distinct last
+   components of the bound paths directly below it. *)
+Fixpoint insert_str (x : string) (l : list string) : list string :=
+  match l with
+  | [] => [x]
+  | y :: t => if String.eqb x y then l else if String.ltb x y then x :: l else y :: insert_str x t
+  end.
+
+Definition child_names (s : fs) (q : cpath) : list string :=
+  fold_right (fun (pe : cpath * entry) acc =>
+                match rev (fst pe) with
+                | name :: drev => if cpath_eqb (rev drev) q then insert_str name acc else acc
+                | [] => acc
+                end) [] s.
+
+Fixpoint walk_list (fuel : nat) (s : fs) (q : cpath) : list (string * bool) :=
+  match fuel with
+  | O => []
+  | S fuel' =>
+      (show_abs q, true) ::
+      flat_map (fun name =>
+                  match lookup (q ++ [name])%list s with
+                  | Some EDir => walk_list fuel' s (q ++ [name])%list
+                  | Some (EFile _) => [(show_abs (q ++ [name])%list, false)]
+                  | None => []
+                  end) (child_names s q)
+  end.
+
 (* ------------------------------------------------------------------ effects *)
 
 Inductive eff :=
@@ -162,6 +198,7 @@ Inductive eff :=
 | EReadFile (p : string)
 | EWriteFile (p : string) (c : content)
 | ERemoveAll (p : string)
+| EWalk (p : string)                           (* FileSystem.Walk: the listing; callbacks are separate effects *)
 | EChoose (cands : list (nat * string)).       (* pseudo effect: Go map iteration order *)
 
 Inductive eres :=
@@ -170,6 +207,7 @@ Inductive eres :=
 | RBool (b : bool)
 | RAbs (d : cpath) (f : string)
 | RData (c : content)
+| RList (l : list (string * bool))             (* (path, is directory) in visiting order *)
 | RPick (n : nat).
 
 Inductive exn := XErr | XFatal | XPanic | XDiverge | XUnsupported.
@@ -216,7 +254,7 @@ Definition op_bool (e : eff) : prog bool :=
 (* ------------------------------------------------------------------ interpreter *)
 
 Inductive opcode :=
-  OExists | OIsDir | OMkdir | OMkdirAll | OCleanedAbs | OReadFile | OWriteFile | ORemoveAll.
+  OExists | OIsDir | OMkdir | OMkdirAll | OCleanedAbs | OReadFile | OWriteFile | ORemoveAll | OWalk.
 
 Record event := mkEv { ev_op : opcode; ev_path : string; ev_ok : bool }.
 
@@ -227,13 +265,13 @@ Definition eff_op (e : eff) : opcode :=
   match e with
   | EExists _ => OExists | EIsDir _ => OIsDir | EMkdir _ => OMkdir | EMkdirAll _ => OMkdirAll
   | ECleanedAbs _ => OCleanedAbs | EReadFile _ => OReadFile | EWriteFile _ _ => OWriteFile
-  | ERemoveAll _ => ORemoveAll | EChoose _ => OExists
+  | ERemoveAll _ => ORemoveAll | EWalk _ => OWalk | EChoose _ => OExists
   end.
 
 Definition eff_path (e : eff) : string :=
   match e with
   | EExists p | EIsDir p | EMkdir p | EMkdirAll p | ECleanedAbs p | EReadFile p
-  | EWriteFile p _ | ERemoveAll p => p
+  | EWriteFile p _ | ERemoveAll p | EWalk p => p
   | EChoose _ => ""
   end.
 
@@ -265,6 +303,13 @@ Definition exec (e : eff) (s : fs) : fs * eres :=
       match fs_write s p c with Some s' => (s', RUnit) | None => (s, RFail) end
   | ERemoveAll p =>
       match fs_remove_all s p with Some s' => (s', RUnit) | None => (s, RFail) end
+  | EWalk p =>
+      match fs_find s p with
+      | FRoot => (s, RList (walk_list (S (List.length s)) s []))
+      | FNode q EDir => (s, RList (walk_list (S (List.length s)) s q))
+      | FNode q (EFile _) => (s, RList [(show_abs q, false)])
+      | _ => (s, RFail)
+      end
   | EChoose _ => (s, RUnit)
   end.
 
@@ -428,12 +473,84 @@ Section Localizer.
     | None => Ret entry
     end.
 
+  (* copyDir's walk callback over the listing.  kyaml's in-memory WalkMe DROPS the error a
+     directory's callback returns (it only looks at it for SkipDir) and carries on; a file's
+     callback error aborts the walk. *)
+  Fixpoint copy_entries (src dst : cpath) (l : list (string * bool)) : prog unit :=
+    match l with
+    | [] => Ret tt
+    | (p, isdir) :: t =>
+        let path_in_dst := join_comps dst (rel_comps src (query_comps p)) in
+        if isdir then
+          Op (EMkdirAll (show_abs path_in_dst)) (fun _ => copy_entries src dst t)
+        else
+          Op (EReadFile p) (fun r =>
+            match r with
+            | RData c =>
+                dop _ <- op_unit (EWriteFile (show_abs path_in_dst) c) ;
+                copy_entries src dst t
+            | _ => Throw XErr
+            end)
+    end.
+
+  (* copyDir *)
+  Definition copy_dir (src dst : cpath) : prog unit :=
+    Op (EWalk (show_abs src)) (fun r =>
+      match r with
+      | RList l => copy_entries src dst l
+      | _ => Throw XErr
+      end).
+
+  (* copyChartHome *)
+  Definition copy_chart_home (lc : lcst) (path : string) (clean : bool) : prog string :=
+    let home := join_abs (lc_root lc) path in
+    let rel := rel_comps (lc_root lc) home in          (* filepath.Rel(root, root.Join(path)) *)
+    dop ex <- op_bool (EExists (show_abs home)) ;
+    if negb ex then Ret (show_rel rel)                  (* may serve as untar destination *)
+    else
+      dop hroot <- ldr_new lc (show_rel rel) ;
+      Op (ECleanedAbs (show_abs hroot)) (fun r =>
+        match r with
+        | RAbs cleaned f =>
+            if negb (String.eqb f "") then Throw XPanic
+            else
+              let to_dst := if clean then rel_comps (lc_root lc) cleaned else rel in
+              let d := join_comps (lc_dst lc) to_dst in
+              dop ex2 <- op_bool (EExists (show_abs d)) ;
+              if ex2 then Ret (show_rel to_dst)          (* "does not guarantee that we copied the entire directory" *)
+              else dop _ <- copy_dir cleaned d ; Ret (show_rel to_dst)
+        | _ => Throw XPanic                              (* log.Panicf: unable to confirm validated directory *)
+        end).
+
+  (* copyChartHomeEntry *)
+  Definition copy_chart_home_entry (lc : lcst) (entry : string) : prog string :=
+    let path := if String.eqb entry "" then "charts" else entry in
+    if is_abs path then Throw XErr
+    else
+      let is_default := cpath_eqb (join_abs (lc_root lc) path) (join_abs (lc_root lc) "charts") in
+      dop lp <- copy_chart_home lc path (negb is_default) ;
+      Ret (if String.eqb entry "" then "" else lp).
+
   Definition loc_pref (lc : lcst) (kp : prefkind * string) : prog string :=
     match fst kp with
     | PFile => loc_file lc (snd kp)
     | PFileSource => loc_file_source lc (snd kp)
     | PK8s => loc_k8s lc (snd kp)
+    | PHome => copy_chart_home_entry lc (snd kp)
+    | PHomeDefault => copy_chart_home_entry lc ""
     end.
+
+  (* localizeHelmInflationGenerator, one entry *)
+  Definition loc_helm_infl (lc : lcst) (h : string * string) : prog (string * string) :=
+    dop v <- loc_file lc (fst h) ;
+    dop d <- copy_chart_home_entry lc (snd h) ;
+    Ret (v, d).
+
+  (* localizeHelmCharts, one entry *)
+  Definition loc_helm_chart (lc : lcst) (h : string * list string) : prog (string * list string) :=
+    dop v <- loc_file lc (fst h) ;
+    dop vs <- mapP (loc_file lc) (snd h) ;
+    Ret (v, vs).
 
   (* one generators/transformers/validators entry (localizeBuiltinPlugins loop body).
      Inline plugin entries are outside the model. *)
@@ -551,6 +668,16 @@ Section Localizer.
                 dop done <- range_fields 5 lc locfn (nonempty_fields fields) [] ;
                 dop cms <- mapP (loc_generator lc) (k_cmgens k) ;
                 dop secs <- mapP (loc_generator lc) (k_secgens k) ;
+                dop hinfl <- mapP (loc_helm_infl lc) (k_helminfl k) ;
+                dop hcharts <- mapP (loc_helm_chart lc) (k_helmcharts k) ;
+                dop hglob <- match k_helmglobals k with
+                             | Some home => dop d <- copy_chart_home_entry lc home ; Ret (Some d)
+                             | None =>
+                                 match k_helmcharts k with
+                                 | [] => Ret None
+                                 | _ => dop _ <- copy_chart_home_entry lc "" ; Ret None
+                                 end
+                             end ;
                 dop pats <- mapP (loc_file lc) (k_patches k) ;
                 dop p69 <- mapP (loc_file lc) (k_patches6902 k) ;
                 dop psm <- mapP (loc_k8s lc) (k_psm k) ;
@@ -564,7 +691,7 @@ Section Localizer.
                             (field_result 2 (k_configurations k) done)
                             (field_result 3 (k_crds k) done)
                             (field_result 4 (k_resources k) done)
-                            cms secs pats p69 psm repl
+                            cms secs hinfl hcharts hglob pats p69 psm repl
                             (field_result 0 (k_generators k) pdone)
                             (field_result 1 (k_transformers k) pdone)
                             (field_result 2 (k_validators k) pdone) in
